@@ -92,13 +92,16 @@ def templates(n):
 
 
 TEMPLATE_NAMES = list(templates(NAMINGS["plain"]))
-GUARDS = ["T", "flag", "not-flag", "cmp"]
+GUARDS = ["T", "flag", "not-flag", "cmp", "own"]      # "own": the guard reads the variable the statement writes
 IDS = ["tmp", "temp", "ifthenelse_cond", "s0", "ifthenelse_then", "tmp_0"]
 
 
-def guard_expr(g):
+def guard_expr(g, own=None):
     if g == "T":
         return True
+    if g == "own":
+        # x is 3 under numeric valuation 0 and 23 under valuation 1: the guard is false once and true once
+        return P.Comparison(V(own), ">", 6) if own is not None else gt0(V("gv"))
     if g == "flag":
         return V("<cond>gf")
     if g == "not-flag":
@@ -109,7 +112,8 @@ def guard_expr(g):
 def make_stmt(tname, naming, guard, sid, deps):
     from dagrt.language import Assign, AssignFunctionCall, YieldState
     t = templates(NAMINGS[naming])[tname]
-    cond = guard_expr(guard)
+    own = t[1] if t[0] == "assign" and isinstance(t[1], str) else None
+    cond = guard_expr(guard, own)
     if t[0] == "assign":
         _, lhs, sub, rhs = t
         return Assign(id=sid, assignee=lhs, assignee_subscript=() if sub is None else (sub,), expression=rhs,
